@@ -43,9 +43,15 @@ func init() {
 	}
 }
 
+// BoundedPart: a bounded check of one function on the real code that stands in for a function the
+// verifier cannot take (never counted as proved). File is under /verif/bounded/<property>/ and
+// contains TestGovcBounded, injected into PkgDir through a go test overlay.
 type BoundedPart struct {
-	Name string
-	Cmd  []string
+	Name   string
+	Func   string // obligation prefix: pkg.Func
+	File   string
+	PkgDir string // relative to the module root
+	Bound  string
 }
 
 var props = []*PropCfg{
@@ -104,6 +110,15 @@ func init() {
 	props = append(props, &PropCfg{
 		ID: "C20", Pkgs: []string{"./internal/tlast"}, Funcs: "",
 		Scope: "TL2 half (LexerLanguage == TL2 is one of the cases of the same functions): " + lexScope, Unverified: append([]string{"tlparser_tl2_code.go"}, lexUnverified...),
+	})
+	props = append(props, &PropCfg{
+		ID:    "C37",
+		Pkgs:  []string{"./pkg/rpc/udp", "./pkg/rpc/internal/gen/internal"},
+		Funcs: `^(\(\*AcksToSend\)\.(HaveHoles|BuildAck|BuildNegativeAck)|\(\*NetUdpPacketEncHeader\)\.(SetPacketAckPrefix|ClearPacketAckPrefix|SetPacketAckFrom|SetPacketAckTo|SetPacketAckSet))$`,
+		Scope: "header half, proved for every state that satisfies the representation invariant (prefix, then non-empty, sorted, disjoint, non-adjacent ranges; the list of ranges is an owned structure): BuildAck acknowledges only recorded numbers (prefix, first range, explicit set), BuildNegativeAck requests only unrecorded numbers; the generated header setters they call are verified too. Bookkeeping half (AddAckRange keeps the invariant and records exactly the union) only by a BOUNDED exhaustive check",
+		Unverified: []string{"AddAckRange beyond the stated bound (it edits the list through two cursors inside a loop: outside the owned-structure model)", "that the ranges in a header cover ALL recorded numbers (headers are truncated at MaxAckSet by design)"},
+		Bounded: []BoundedPart{{Name: "AddAckRange vs. reference set", Func: "udp.(*AcksToSend).AddAckRange", File: "acks_bounded.go", PkgDir: "pkg/rpc/udp",
+			Bound: "all sequences of <= 4 ranges over 0..6 and of <= 3 ranges over 0..9 (806,875 sequences); after each step: representation invariant, acknowledged set == recorded set, headers consistent"}},
 	})
 	props = append(props, &PropCfg{
 		ID:    "C30",
